@@ -151,3 +151,103 @@ def _walk_no_nested(node):
         if isinstance(n, (ast.FunctionDef, ast.AsyncFunctionDef, ast.Lambda, ast.ClassDef)):
             continue
         stack.extend(ast.iter_child_nodes(n))
+
+
+# --------------------------------------------------------------------------------------------------
+# Roles of local variables in loop contracts.  A loop invariant has to talk about the loop's state; it finds the
+# variables that hold that state by the role they play in the function (what is returned, what the loop updates, what
+# the loop binds), not by their names: renaming a local does not invalidate a contract.
+# --------------------------------------------------------------------------------------------------
+def returned_names(node):
+    """Names appearing in the last `return` of a function, in source order (`return np.array(a), np.array(b)` -> [a, b])."""
+    rets = [n for n in _walk_no_nested(node) if isinstance(n, ast.Return) and n.value is not None]
+    if not rets:
+        return []
+    last = max(rets, key=lambda r: r.lineno)
+    names = [n for n in ast.walk(last.value) if isinstance(n, ast.Name)]
+    names.sort(key=lambda n: (n.lineno, n.col_offset))
+    out = []
+    for n in names:
+        if n.id not in out:
+            out.append(n.id)
+    return out
+
+
+def loop_target_names(loop):
+    """Names bound by the target of a `for` loop, in source order."""
+    if not isinstance(loop, ast.For):
+        return []
+    names = [n for n in ast.walk(loop.target) if isinstance(n, ast.Name)]
+    names.sort(key=lambda n: (n.lineno, n.col_offset))
+    return [n.id for n in names]
+
+
+def updated_names(loop):
+    """Names the body of a loop rebinds or updates in place (assignment, augmented assignment, subscript store,
+    .append / .extend / .insert), in order of first occurrence; loop targets of nested loops are not included."""
+    out = []
+
+    def add(nm):
+        if nm not in out:
+            out.append(nm)
+
+    def base(t):
+        while isinstance(t, (ast.Subscript, ast.Attribute)):
+            t = t.value
+        return t.id if isinstance(t, ast.Name) else None
+
+    body = ast.Module(body=loop.body, type_ignores=[])
+    nodes = sorted((n for n in ast.walk(body) if hasattr(n, "lineno")), key=lambda n: (n.lineno, n.col_offset))
+    for n in nodes:
+        if isinstance(n, ast.Assign):
+            for t in n.targets:
+                for e in t.elts if isinstance(t, ast.Tuple) else [t]:
+                    nm = base(e)
+                    if nm:
+                        add(nm)
+        elif isinstance(n, ast.AugAssign):
+            nm = base(n.target)
+            if nm:
+                add(nm)
+        elif isinstance(n, ast.Call) and isinstance(n.func, ast.Attribute) and n.func.attr in ("append", "extend", "insert"):
+            nm = base(n.func.value)
+            if nm:
+                add(nm)
+    return out
+
+
+def carried_names(loop):
+    """Updated names whose first occurrence in the loop body reads them: the state carried from one iteration to the next."""
+    upd = updated_names(loop)
+    body = ast.Module(body=loop.body, type_ignores=[])
+    first = {}
+    # evaluation order within a statement: the value of an assignment is evaluated before its target is bound
+    def visit(n):
+        if isinstance(n, ast.Assign):
+            visit(n.value)
+            for t in n.targets:
+                visit(t)
+            return
+        if isinstance(n, ast.AugAssign):
+            first.setdefault(getattr(n.target, "id", None), "read")
+            visit(n.value)
+            visit(n.target)
+            return
+        if isinstance(n, ast.Name):
+            first.setdefault(n.id, "read" if isinstance(n.ctx, ast.Load) else "write")
+            return
+        for c in ast.iter_child_nodes(n):
+            visit(c)
+
+    visit(body)
+    return [n for n in upd if first.get(n) == "read"]
+
+
+def loop_roles(modname, qualname, ordinal=0):
+    """(function node, loop node, returned names, loop-target names, updated names, carried names) of one loop."""
+    node = find_def(modname, qualname)
+    loops = loops_of(node)
+    if ordinal >= len(loops):
+        raise LookupError(f"loop contract does not apply: {modname}.{qualname} has no loop number {ordinal} (re-annotation needed)")
+    lp = loops[ordinal]
+    return node, lp, returned_names(node), loop_target_names(lp), updated_names(lp), carried_names(lp)
